@@ -188,6 +188,10 @@ def finish(res, level="model_checking"):
     for l in lines[:50]:
         print(l)
     wall = time.time() - res.t0
+    if res.confirmed or res.known_hits:
+        # a run cut short by a crash still explored the crashing case
+        res.states = max(res.states, 1)
+        res.transitions = max(res.transitions, 1)
     cov = {
         "states": int(res.states),
         "transitions": int(res.transitions),
